@@ -12,7 +12,7 @@ cd "$(dirname "$0")/.." || exit 2
 while read PID DIR; do
   [ -z "$PID" ] && continue
   (cd $R && git apply $DIR/patch.diff) || { echo "$DIR: patch does not apply"; continue; }
-  ./check $PID --tier quick > $DIR/check_$PID.log 2>&1; rc=$?
+  VERIF_EVIDENCE_DIR=$PWD/work/evidence_seed ./check $PID --tier quick > $DIR/check_$PID.log 2>&1; rc=$?
   (cd $R && git checkout -q -- .)
   echo "$DIR $PID exit=$rc $(grep -c VIOLATION $DIR/check_$PID.log) violation-lines: $(grep VIOLATION $DIR/check_$PID.log | head -1 | cut -c1-200)"
 done < $LIST
